@@ -326,14 +326,14 @@ def to_z3(t, memo, ufs, abstract=False):
                 name = op[3:]
                 f = ufs.get(name)
                 if f is None:
-                    f = ufs[name] = z3.Function(name, z3.RealSort(), z3.RealSort())
+                    f = ufs[name] = z3.Function("uf_" + name, z3.RealSort(), z3.RealSort())      # prefixed: cvc5 reserves sqrt, exp, ... as theory symbols
                 r = f(a[0])
             elif op.startswith("ufn:"):
                 name = op[4:]
                 key = (name, tuple(y.sort for y in x.args), x.sort)
                 f = ufs.get(key)
                 if f is None:
-                    f = ufs[key] = z3.Function(name, *[_ZS[y.sort]() for y in x.args], _ZS[x.sort]())
+                    f = ufs[key] = z3.Function("uf_" + name, *[_ZS[y.sort]() for y in x.args], _ZS[x.sort]())
                 r = f(*a)
             else:
                 raise NotImplementedError(op)
